@@ -1,0 +1,17 @@
+//go:build verif
+
+package fzf
+
+// Verification hooks (build tag verif): read-only view of unexported constants.
+
+func VerifConstants() map[string]int {
+	return map[string]int{
+		"readerBufferSize": readerBufferSize, "readerSlabSize": readerSlabSize,
+		"maxPatternLength": maxPatternLength, "chunkSize": chunkSize,
+		"slab16Size": slab16Size, "slab32Size": slab32Size,
+		"queryCacheMax": queryCacheMax, "mergerCacheMax": mergerCacheMax,
+		"maxContentLength": maxContentLength,
+		"ExitOk": ExitOk, "ExitNoMatch": ExitNoMatch, "ExitError": ExitError,
+		"ExitBecome": ExitBecome, "ExitInterrupt": ExitInterrupt,
+	}
+}
